@@ -10,6 +10,7 @@ import Driver.Values
 import Driver.Refs
 import Driver.BBox
 import Driver.Export
+import Driver.Cli
 open Driver
 
 def step (line : String) : String :=
@@ -35,6 +36,7 @@ def step (line : String) : String :=
   | "obbgrad" :: args => handleBBox "obbgrad" args
   | "obbclip" :: args => handleBBox "obbclip" args
   | "obbrect" :: args => handleBBox "obbrect" args
+  | "fitto" :: args => handleCli "fitto" args
   | "exportts" :: args => handleExport "exportts" args
   | "findid" :: args => handleExport "findid" args
   | "gbox" :: args => handleBBox "gbox" args
